@@ -122,4 +122,5 @@ Definition dispatch (name : list Z) (a : sexp) : sexp :=
   else if name_is name "vnc_key" then d_vnc_key a
   else if name_is name "ard_parts" then d_ard_parts a
   else if name_is name "spec_update" then d_spec_update a
+  else if name_is name "spec_viewer" then d_spec_viewer a
   else sErr.
